@@ -55,4 +55,24 @@ TEXT = {
   "level_text": "Seeded exploration of Add/Flush/Has/Len/reopen sequences (<=200) over a 65-hash space with first bytes 00,01,7f,fe,ff and batch sizes 1..8/default; membership, Len, sortedness and fan-out consistency checked against a Go map after every flush and reopen; thorough tier also uses a real temp file.",
   "level_note": _T,
  },
+ "C02": {
+  "technique": "metamorphic deterministic simulation: one logical table ingested under two seeded presentations (row order, delimiter, spill size, worker count, store-op schedule, store instance) must get one identifier; one mutation must change it; CLI re-commit must report no change",
+  "level_text": "Seeded exploration of presentation pairs through the real sorter + ingest worker pool under the parking scheduler, plus the in-process CLI path (commit --set-file, rewrite permuted, commit again) with the file mtime set before/after the simulated commit time.",
+  "level_note": _T,
+ },
+ "C05": {
+  "technique": "deterministic simulation of merge.Merger + RowCollector + hash set (simulated file) + sorter + ingest, driven as the CLI drives them, against scenarios whose result is known by construction",
+  "level_text": "Seeded exploration of constructive 3-way merge scenarios (key column anywhere or none, 1-3 blocks, 2-3 branches; one branch = base, identical branches, disjoint edits, declared same-cell and remove-vs-modify conflicts; column add/remove/move/rename; branch order permuted; hash-set batch 1..default; blocks or rows output). Differ/merger interleaving is left to the Go runtime (the merger busy-polls), the oracle is order-independent.",
+  "level_note": _T + " Scenarios with a column change in one branch and a row removal in another are excluded (the resolver reports them as conflicts, which the statement permits).",
+ },
+ "C13": {
+  "technique": "fault enumeration in the simulator: the global write log (object store + real SQLite ref store snapshots) of each operation is recorded, every prefix is materialised as a crash state, reopened, checked and the operation re-run; plus a failure injected at every write position (once, and sticky = disk full)",
+  "level_text": "For every generated case ALL crash points of the executed operation are enumerated (exhaustive over the write sequence of that run, sampled over inputs): commit to an existing/new branch (incl. multi-worker ingest under the seeded scheduler), merge fast-forward / --no-ff / 3-way, prune; invariants I1-I4 on every state and equivalence (tables + history shape) of the re-run with the uninterrupted run.",
+  "level_note": _T + " Crash = process death between two store writes (completed writes survive); torn writes inside one Set / one SQL transaction are not modelled (Badger and SQLite are trusted to be atomic per call). fetch/pull are covered in C09's fault profile, not yet prefix-enumerated.",
+ },
+ "C14": {
+  "technique": "fault enumeration in the simulator over `wrgl transaction commit|discard`: crash after every write prefix and failure at every object-store/ref-store write, re-run, plus double-commit / discard-after-commit sequences",
+  "level_text": "Transactions staging 1-4 new/existing branches through the in-process CLI; every crash point and every single write failure of commit and discard is enumerated per case; oracle: every branch untouched with the transaction in progress, or completable by re-running to exactly one new commit per branch carrying the staged table, committed status and one tagged reflog entry per branch; never two commits ahead; committed transactions refuse commit and discard.",
+  "level_note": _T,
+ },
 }
